@@ -72,6 +72,7 @@ def validate (b : Bytes) : Bool :=
 /-- `SuitObject.deserialize_cbor` -/
 def deser (b : Bytes) : R Cbor :=
   if !validate b then .error .valueError
+  else if b.head? = some 0xFF then .ok (.simple 31)     -- cbor2 returns its "break marker" object for a stray 0xFF
   else match loads b with
     | none => .error .valueError
     | some c => match norm c with
